@@ -196,8 +196,13 @@ def h_legacy(sx, cfg):
             fld = h.create_group("field")
             m = fld.create_group("mesh")
             rg = m.create_group("region")
-            rg.create_dataset("p1", data=symarray(pmin) if sx.sym else np.array(pmin, dtype=float))
-            rg.create_dataset("p2", data=symarray([pmin[a] + e[a] for a in range(nd)]) if sx.sym else np.array([pmin[a] + e[a] for a in range(nd)], dtype=float))
+            # old releases stored the two corners as the user gave them (not sorted)
+            flips = cfg.get("flip") or [False] * nd
+            far = [pmin[a] + e[a] for a in range(nd)]
+            c1 = [far[a] if flips[a] else pmin[a] for a in range(nd)]
+            c2 = [pmin[a] if flips[a] else far[a] for a in range(nd)]
+            rg.create_dataset("p1", data=symarray(c1) if sx.sym else np.array(c1, dtype=float))
+            rg.create_dataset("p2", data=symarray(c2) if sx.sym else np.array(c2, dtype=float))
             m.create_dataset("n", data=np.array(n, dtype=int))
             fld.create_dataset("dim", data=np.int64(nv))
             fld.create_dataset("array", data=vals)
@@ -290,5 +295,8 @@ def tasks(tier):
         t.append(dict(harness="h_roundtrip", cfg=cfg, limits=big))
     for n, nv in ([((3,), 1), ((2, 2), 3)] if q else [((3,), 1), ((2, 2), 3), ((2, 1, 2), 2), ((1, 2, 1, 2), 1)]):
         t.append(dict(harness="h_legacy", cfg=dict(n=list(n), nvdim=nv), limits=big))
+        t.append(dict(harness="h_legacy", cfg=dict(n=list(n), nvdim=nv, flip=[True] * len(n)), limits=big))
+        if len(n) > 1:
+            t.append(dict(harness="h_legacy", cfg=dict(n=list(n), nvdim=nv, flip=[bool(a % 2) for a in range(len(n))]), limits=big))
         t.append(dict(harness="h_dtype", cfg=dict(n=list(n), nvdim=nv)))
     return t
